@@ -1,0 +1,116 @@
+//! Verification hooks for the roto-filter property (C10; feature
+//! `verif-hooks`, add-only). Mounted as a child module of
+//! `bmp_tcp_in::router_handler` because `process_msg` and the handler's
+//! fields are private there.
+//!
+//! Nothing here has behaviour of its own: `mk_handler` builds a
+//! `RouterHandler` through its public `new` the way `RouterHandler::mock`
+//! does under `cfg(test)`, with a caller-supplied compiled `bmp-in` function;
+//! `process_msg` is the private method, unchanged.
+
+use std::net::SocketAddr;
+use std::sync::Arc;
+
+use arc_swap::ArcSwap;
+use bytes::Bytes;
+use routecore::bmp::message::Message;
+use tokio::sync::Mutex;
+
+use super::super::metrics::BmpTcpInMetrics;
+use super::super::state_machine::{BmpState, BmpStateMachineMetrics};
+use super::super::status_reporter::BmpTcpInStatusReporter;
+use super::super::unit::BmpTcpIn;
+use super::RouterHandler;
+use crate::comms::{Gate, GateAgent};
+use crate::ingress::{self, IngressId};
+use crate::roto_runtime::types::Provenance;
+use crate::roto_runtime::Ctx;
+
+/// The same type as the crate-private alias `bmp_tcp_in::unit::RotoFunc`.
+pub type BmpInFunc = roto::TypedFunc<
+    Ctx,
+    (roto::Val<Message<Bytes>>, roto::Val<Provenance>),
+    roto::Verdict<(), ()>,
+>;
+
+/// A handler for one fresh BMP session (state machine in phase Initiating)
+/// with `roto_function = f`, publishing on a new gate.
+pub fn mk_handler(
+    f: Option<BmpInFunc>,
+    ingress_id: IngressId,
+) -> (RouterHandler, GateAgent) {
+    let (gate, gate_agent) = Gate::new(0);
+    let router_id = Arc::new("unknown".into());
+    let bmp_in_metrics = Arc::new(BmpTcpInMetrics::default());
+    let bmp_metrics = Arc::new(BmpStateMachineMetrics::default());
+    let status_reporter =
+        Arc::new(BmpTcpInStatusReporter::new("dummy", bmp_in_metrics));
+    let state_machine = BmpState::new(
+        ingress_id,
+        router_id,
+        status_reporter.clone(),
+        bmp_metrics.clone(),
+        Arc::new(ingress::Register::new()),
+    );
+    let handler = RouterHandler::new(
+        gate,
+        f,
+        Arc::new(ArcSwap::from_pointee(
+            BmpTcpIn::default_router_id_template(),
+        )),
+        Default::default(),
+        status_reporter,
+        Arc::new(Mutex::new(Some(state_machine))),
+        Default::default(),
+        Default::default(),
+        None,
+        bmp_metrics,
+    );
+    (handler, gate_agent)
+}
+
+/// `RouterHandler::process_msg`, unchanged. `Err` is mapped to its text.
+pub async fn process_msg(
+    handler: &RouterHandler,
+    addr: SocketAddr,
+    ingress_id: IngressId,
+    msg: Message<Bytes>,
+    provenance: Provenance,
+) -> Result<(), String> {
+    handler
+        .process_msg(
+            std::time::Instant::now(),
+            addr,
+            ingress_id,
+            msg,
+            provenance,
+            None,
+        )
+        .await
+        .map_err(|(_, e)| e)
+}
+
+/// One turn of the handler's gate command loop (`Gate::process`), so a
+/// harness link can subscribe to the gate the handler publishes on.
+pub async fn gate_process(handler: &RouterHandler) {
+    let _ = handler.gate.process().await;
+}
+
+/// Phase of the session's state machine (0 Initiating, 1 Dumping,
+/// 2 Updating, 3 Terminated, 4 Aborted) and its router id.
+pub async fn state(handler: &RouterHandler) -> (u8, String) {
+    let lock = handler.state_machine.lock().await;
+    match lock.as_ref() {
+        Some(s) => {
+            let idx = match s {
+                BmpState::Initiating(_) => 0,
+                BmpState::Dumping(_) => 1,
+                BmpState::Updating(_) => 2,
+                BmpState::Terminated(_) => 3,
+                BmpState::_Aborted(..) => 4,
+            };
+            (idx, s.router_id().to_string())
+        }
+        None => (255, String::new()),
+    }
+}
